@@ -94,7 +94,7 @@ def run_history(ctx, rng, case, est, Q, rate, hname, hf, keys, nsteps, p_pushpop
                 p2 = sc.path("load")
                 with open(p2, "wb") as fh:
                     fh.write(data)
-                f = P.RotatingBloomFilter(filepath=p2, max_queue_size=Q, **bl.kw_hash(hf))
+                f = P.RotatingBloomFilter(filepath=p2, max_queue_size=Q, **bl.kw_hash(hf), **({"est_elements": rng.randint(1, 500), "false_positive_rate": rng.choice([0.3, 0.05, 0.011, 0.001])} if rng.random() < 0.3 else {}))
             else:
                 f = P.RotatingBloomFilter.frombytes(data, max_queue_size=Q, **bl.kw_hash(hf))
             reloads += 1
